@@ -128,8 +128,33 @@ pub fn cmd_miri(prop: &str, seed: u64, n: u64) {
                     bad |= concurrent_stress(s);
                 }
             }
+            p if matches!(crate::driver::family_of(p), "D" | "A") => {
+                // dispatcher scenarios on real threads (the stand-in pool in pass-through mode:
+                // one OS thread per job, blocking = yield loops): Miri's scheduler decides the
+                // interleaving at basic-block granularity inside shred's own code too, its
+                // data-race detector and aliasing model are the extra oracles next to the
+                // history oracles of the family
+                detsim::PASSTHROUGH.store(true, Ordering::SeqCst);
+                crate::driver::MIRI_PLANS.store(true, Ordering::SeqCst);
+                let kfs = crate::driver::known_findings();
+                let found = crate::dfamily::explore(p, s, false, &mut st);
+                for r in &found {
+                    if r.property != p {
+                        continue;
+                    }
+                    if crate::driver::match_known(&kfs, &r.property, &r.class, &r.msg).is_some() {
+                        println!("MIRI-TIER {} known-finding {}", p, r.class);
+                        continue;
+                    }
+                    println!("MIRI-TIER {} {}: {}", p, r.class, r.msg);
+                    bad = true;
+                }
+            }
             _ => {}
         }
+    }
+    if matches!(crate::driver::family_of(prop), "D" | "A") {
+        println!("MIRI-TIER {} stats: scenarios={} runs={} overlapping_pairs={}", prop, st.scenarios, st.runs, st.overlap_pairs);
     }
     println!("MIRI-TIER {} done: seeds {}..{} violations={}", prop, seed, seed.wrapping_add(n), bad);
     if bad {
